@@ -19,11 +19,11 @@ CHECKS = {
             'of roCreate untouched) and C02_moves_swaps_conserve, proved in Coq; correspondence run on stories with 0..n items, '
             'paragraph layouts, repeated item IDs across stories, random histories.',
             'section 5 C02', 'Coq theorems on a Gallina model + extracted-model differential run'),
-    'C05': ('proof', 'Theorem C05_failed_merge_is_identity: for every well-formed running order, every class and every message with an '
+    'C05': ('proof', 'Theorems C05_failed_merge_is_identity / C05_any_running_order: for every document with a roCreate element, every class and every message with an '
             'integer messageID, if ro + m raises the document is unchanged (the model carries the state at the point of failure, so '
             'this is about the order of checks and edits in all 24 merges); C05_nonstrict_sequences: a non-strict merge equals the fold '
             'over the messages that did not fail. Correspondence: k-th-of-n unresolvable IDs, swap/move operand combinations, '
-            'exhaustive small message spaces, random histories, non-strict collections with every failing subset.',
+            'exhaustive small message spaces, running orders with blank-ID / ID-less placeholder stories, random histories, non-strict collections with every failing subset.',
             'section 5 C05', 'Coq theorems on a Gallina model + extracted-model differential run'),
     'C07': ('proof', 'Theorems C07_rodelete_marks, C07_terminal (all classes, any later history), C07_never_spurious (invariant over any '
             'history without roDelete) proved in Coq; the serialise / re-read / re-classify round trip is checked on the real code at '
@@ -44,23 +44,25 @@ CHECKS = {
             'real constructor under default flags and python -O.',
             'section 5 C11', 'Coq theorems + exhaustive small collections under two interpreter configurations'),
     'C12': ('proof', 'Theorems C12_classify, C12_merge (all 25 classes: outcome is success, MosMergeError or MosCompletedMergeError under '
-            'wf_ro, schema_ok, timing_ok; the model contains the built-in exception paths) and C12_nonstrict_terminates, proved in Coq '
-            'using the invariant wf_ro along histories. Correspondence: all classes x blank/unknown/repeated/self-referential IDs x '
-            'running orders with/without timing metadata x histories.',
+            'schema_ok, timing_ok, for any document with a roCreate: C12_any_running_order; the model contains the built-in exception paths) and C12_nonstrict_terminates, proved in Coq. '
+            'Correspondence: all classes x blank/unknown/repeated/self-referential IDs x '
+            'running orders with/without timing metadata x histories, plus histories merged into one live RunningOrder object.',
             'section 5 C12', 'Coq theorems on a Gallina model + extracted-model differential run'),
     'C03': ('proof', 'Theorems C03_frame_story_ops (every child of roCreate that the message neither names nor carries keeps identical '
             'content and relative order, all 11 story-level classes; no ID hypothesis for the 8 non-move classes), '
-            'C03_frame_item_ops (whatever the message, only the children of the one addressed story can change) and '
+            'C03_frame_item_ops (whatever the message, only the children of the one addressed story can change), C03_frame_inside_story '
+            '(inside it, the children neither named nor carried keep content and order) and '
             'C03_frame_metadata (children not matched by tag / (tag, mosSchema) untouched), proved in Coq. Correspondence on '
-            'the complete resulting tree over rich running orders.',
+            'the complete resulting tree over rich running orders, including ones holding placeholder stories with blank / missing IDs.',
             'section 5 C03', 'Coq frame theorems on a Gallina model + extracted-model differential run on whole trees'),
     'C04': ('proof', 'Theorems C04_story_send_shape, C04_payload_present (carried elements spliced in as identical values, contiguous, '
             'in message order), C04_insert_dups_present, C04_roreplace, C04_metadata proved in Coq. Correspondence: random payloads '
             'of depth <=4 [<=7] with attributes, mixed text/tails and markup-significant characters for the 13 payload-carrying classes.',
             'section 5 C04', 'Coq theorems on a Gallina model + extracted-model differential run'),
-    'C06': ('proof', 'Theorems C06_raise_or_warn (silent success implies every named story ID was found), C06_delete_warnings, '
+    'C06': ('proof', 'Theorems C06_raise_or_warn, C06_raise_or_warn_items (silent success implies every named story / item ID was found), C06_delete_warnings, '
             'C06_insert_warnings, C06_item_delete_warnings (exactly one warning per absent / duplicate element, the rest applied), '
-            'C06_fully_applied_is_silent, proved in Coq. Correspondence on (exception class, warning categories, resulting IDs).',
+            'C06_fully_applied_is_silent, proved in Coq. Correspondence on (exception class, warning categories, resulting IDs), for fresh '
+            'running orders and along histories merged into one live object.',
             'section 5 C06', 'Coq theorems on a Gallina model + extracted-model differential run'),
     'C20': ('proof', 'Theorems C20_inspect_no_raise, C20_inspect_mentions_sources, C20_story_move_target, C20_sources_are_id_tags, '
             'C20_carried_exposed about the accessor functions the merge model itself uses; differential run of every Python accessor '
